@@ -222,6 +222,9 @@ type c19Case struct {
 	Mode  c03Mode
 	Conns int
 	Reads []c19Read
+	// LateLimit: the read limit of a connection is raised (from the default to 1 MiB) only while
+	// its first wsjson.Read is already waiting for the message
+	LateLimit bool
 }
 
 type c19Result struct {
@@ -253,7 +256,9 @@ func runC19Reads(t fataler, c c19Case, concurrent bool) (string, c19Result) {
 		if err != nil {
 			return "handshake: " + err.Error(), res
 		}
-		lc.C.SetReadLimit(1 << 20)
+		if !c.LateLimit {
+			lc.C.SetReadLimit(1 << 20)
+		}
 		lc.Peer.start(e)
 		conns[i] = lc
 		defs[i] = ref.NewDeflater(lc.Agreed.SenderTakeover(!c.Mode.Client))
@@ -267,6 +272,7 @@ func runC19Reads(t fataler, c c19Case, concurrent bool) (string, c19Result) {
 	var mu sync.Mutex
 	var keep []kept
 	dead := make([]bool, c.Conns)
+	raised := make([]bool, c.Conns)
 	var fail string
 	setFail := func(s string) {
 		mu.Lock()
@@ -287,7 +293,17 @@ func runC19Reads(t fataler, c c19Case, concurrent bool) (string, c19Result) {
 		if r.Binary {
 			op = ref.OpBinary
 		}
+		lateNow := false
+		if c.LateLimit {
+			mu.Lock()
+			lateNow = !raised[r.Conn]
+			raised[r.Conn] = true
+			mu.Unlock()
+		}
 		if r.Mangle == "transport-cut" {
+			if lateNow {
+				lc.C.SetReadLimit(1 << 20)
+			}
 			keep := r.depth
 			first := r.CutFirst // == keep: only the header of the final frame gets through
 			if first > keep {
@@ -317,15 +333,20 @@ func runC19Reads(t fataler, c c19Case, concurrent bool) (string, c19Result) {
 			raw, comp = defs[r.Conn].Message(r.Doc, ref.DVSync), true
 			mu.Unlock()
 		}
-		switch r.Shape {
-		case "two":
-			lc.Peer.send(ref.Frame{Opcode: op, Rsv1: comp, Payload: raw[:len(raw)/2]})
-			lc.Peer.send(ref.Frame{Fin: true, Opcode: ref.OpCont, Payload: raw[len(raw)/2:]})
-		case "empty-fin":
-			lc.Peer.send(ref.Frame{Opcode: op, Rsv1: comp, Payload: raw})
-			lc.Peer.send(ref.Frame{Fin: true, Opcode: ref.OpCont})
-		default:
-			lc.Peer.send(ref.Frame{Fin: true, Opcode: op, Rsv1: comp, Payload: raw})
+		sendFrames := func() {
+			switch r.Shape {
+			case "two":
+				lc.Peer.send(ref.Frame{Opcode: op, Rsv1: comp, Payload: raw[:len(raw)/2]})
+				lc.Peer.send(ref.Frame{Fin: true, Opcode: ref.OpCont, Payload: raw[len(raw)/2:]})
+			case "empty-fin":
+				lc.Peer.send(ref.Frame{Opcode: op, Rsv1: comp, Payload: raw})
+				lc.Peer.send(ref.Frame{Fin: true, Opcode: ref.OpCont})
+			default:
+				lc.Peer.send(ref.Frame{Fin: true, Opcode: op, Rsv1: comp, Payload: raw})
+			}
+		}
+		if !lateNow {
+			sendFrames()
 		}
 		target := newTarget(r.Target)
 		var err error
@@ -337,6 +358,11 @@ func runC19Reads(t fataler, c c19Case, concurrent bool) (string, c19Result) {
 			err = wsjson.Read(rctx, lc.C, target)
 			rcancel() // the idiomatic per-message context: cancelled once the call is over
 		})
+		if lateNow {
+			e.sleep(time.Millisecond) // (virtual) the Read is waiting for the message now
+			lc.C.SetReadLimit(1 << 20)
+			sendFrames()
+		}
 		if !within(d, 30*time.Second) {
 			setFail(fmt.Sprintf("read %d did not return", i))
 			return
@@ -472,12 +498,21 @@ func genC19(rt *rapid.T) c19Case {
 		}
 		c.Reads = append(c.Reads, r)
 	}
+	if rapid.IntRange(0, 3).Draw(rt, "lateLimit") == 0 {
+		c.LateLimit = true
+		if rapid.Bool().Draw(rt, "bigFirst") {
+			// ... and the first message is larger than the default limit
+			doc, _ := json.Marshal(strings.Repeat(rapid.SampledFrom([]string{"x", "é"}).Draw(rt, "bigUnit"), 40000))
+			r0 := &c.Reads[0]
+			r0.Doc, r0.Target, r0.Mangle, r0.depth, r0.Binary = doc, rapid.SampledFrom([]string{"any", "string", "raw"}).Draw(rt, "bigTarget"), "", 0, false
+		}
+	}
 	return c
 }
 
 func TestC19(t *testing.T) {
 	rec := evid.For("C19")
-	rec.Rule = "reads: rapid draws 2-8 wsjson.Read calls over 1-3 connections (sharing the buffer pool), each with a document from a recursive JSON generator (depth <= 6, unicode/escapes, strings up to 160 KB with the read limit raised, numbers, nulls), optionally indented, mangled (truncated, trailing garbage, two values, garbage) or of the wrong shape for the target, sent uncompressed or compressed (the peer's compressor keeping its window where agreed, a third of the documents repeating an earlier one), framed as one frame / two fragments / one non-final frame plus an empty final frame, read with the shared context or with a context of its own that is cancelled as soon as the call returned; writes: 1-5 wsjson.Write calls incl. values encoding/json rejects (NaN, Inf, chan, func, failing Marshaler), after which the later values must still arrive; decoded into interface{}, a struct, json.RawMessage, []byte, string, map or slice; compared with encoding/json on the same bytes (accept/reject and value), invalid => Close 1007 on the wire, earlier results re-checked after all later reads. writes: generated values written with wsjson.Write must appear as exactly one text message whose payload is JSON-equivalent. Non-trivial: a nested value (depth >= 2) or a RawMessage/[]byte target followed by another read. distinct = hash(mode, conns, per-read (target, mangle, depth, size class))."
+	rec.Rule = "reads: rapid draws 2-8 wsjson.Read calls over 1-3 connections (sharing the buffer pool), each with a document from a recursive JSON generator (depth <= 6, unicode/escapes, strings up to 160 KB with the read limit raised - in a quarter of the cases only while the connection's first Read is already waiting -, numbers, nulls), optionally indented, mangled (truncated, trailing garbage, two values, garbage) or of the wrong shape for the target, sent uncompressed or compressed (the peer's compressor keeping its window where agreed, a third of the documents repeating an earlier one), framed as one frame / two fragments / one non-final frame plus an empty final frame, read with the shared context or with a context of its own that is cancelled as soon as the call returned; writes: 1-5 wsjson.Write calls incl. values encoding/json rejects (NaN, Inf, chan, func, failing Marshaler), after which the later values must still arrive; decoded into interface{}, a struct, json.RawMessage, []byte, string, map or slice; compared with encoding/json on the same bytes (accept/reject and value), invalid => Close 1007 on the wire, earlier results re-checked after all later reads. writes: generated values written with wsjson.Write must appear as exactly one text message whose payload is JSON-equivalent. Non-trivial: a nested value (depth >= 2) or a RawMessage/[]byte target followed by another read. distinct = hash(mode, conns, per-read (target, mangle, depth, size class))."
 	rapid.Check(t, func(rt *rapid.T) {
 		c := genC19(rt)
 		var msg string
